@@ -92,6 +92,7 @@ class StreamScript(object):
         self.server = None
         self.session = None
         self.cfg = dict(imm_ok=0)
+        self.held = None         # (bytes, complete lines, head) buffered when the server read past the end of the script
 
     def verdict(self, slot):
         if self.cur < 0:
@@ -114,6 +115,13 @@ class EofSocket(ScriptSocket):
         self.script = None
 
     def recv(self, n=4096):
+        if not self.chunks and not self.eof_hit and self.script.in_cmd and self.script.server is not None:
+            # The client has sent everything it is going to send before it sees replies.  A real client
+            # would now wait: the server must not ask for more input while a complete command line it
+            # has not answered yet sits in io.recv_buffer (both sides would wait for ever).
+            held = self.script.server.io.recv_buffer
+            if b'\n' in held:
+                self.script.held = (len(held), held.count(b'\n'), bytes(held[:120]))
         r = super(EofSocket, self).recv(n)
         if r == b'' and not self.eof_hit:
             self.eof_hit = True
@@ -200,7 +208,7 @@ def run_impl(mx, vb, envs, chunks, ctx_on=False):
     for i in range(len(marks) - 1):
         outs.append((reply_codes(sock.sent[marks[i]:marks[i + 1]]), tuple(script.events.get(i, []))))
     trace = tuple(e for o in outs for e in o[1])
-    return dict(sent=sock.sent, outs=outs, fin=fin, trace=trace, unread=sock.unread(),
+    return dict(sent=sock.sent, outs=outs, fin=fin, trace=trace, unread=sock.unread(), held=script.held,
                 exc=type(exc).__name__ if exc is not None else None)
 
 
@@ -511,8 +519,11 @@ def expected_clean(case):
         elif w == b'RSET':
             reps.append(250); tr.append(('call', S7.K_RSET, b'', (), 250))
             i += 1
-        elif w == b'NOOP':
+        elif w == b'NOOP' or w.startswith(b'NOOP '):
             reps.append(250)
+            i += 1
+        elif w.startswith(b'XYZZY '):
+            reps.append(500)
             i += 1
         elif w == b'QUIT':
             reps.append(221)
@@ -578,6 +589,16 @@ def check_stream(ctx, case, kind, every_cut_upto=60, nrandom=3, model_all=True):
     for o in base['outs']:
         for c in o[0]:
             ctx.count('reply:%d' % c)
+    # oracle 0: the server never waits for input while it holds complete, unanswered command lines
+    for name, chunks, r in results:
+        if r.get('held'):
+            ctx.fail('c09:server-reads-while-holding-unanswered-commands', case_json(case, name),
+                     dict(what='after the last of the client\'s bytes had arrived (segmentation [%s], last recv() result %d bytes) the server called recv() again while '
+                               'io.recv_buffer held %d bytes with %d complete command lines it had not answered (%r...): a client waiting for the replies and the '
+                               'server wait for each other; at end of file the commands are dropped' % (
+                                   seg_name(name), len(chunks[-1]) if chunks else 0, r['held'][0], r['held'][1], r['held'][2][:60]),
+                          got=describe(r)))
+            break
     # oracle 1: every segmentation behaves like the first one
     for name, chunks, r in results[1:]:
         if observable(r) != observable(base):
@@ -602,7 +623,12 @@ def check_stream(ctx, case, kind, every_cut_upto=60, nrandom=3, model_all=True):
             inbody = [e for e in r['trace'] if e[0] == 'call' and e[1] != S7.K_HAVE and b'inbody' in e[2]]
             got_after = set(e[2] for e in r['trace'] if e[0] == 'call' and e[1] == S7.K_MAIL and e[2].startswith(b'after'))
             want_after = set(e[2] for e in want_tr if e[0] == 'call' and e[1] == S7.K_MAIL and e[2].startswith(b'after'))
-            if inbody:
+            inarg = [e for e in r['trace'] if e[0] == 'call' and b'inarg' in e[2]]
+            if inarg or (case.get('gen', {}).get('kind') == 'longcmd' and len(got_reps) > len(want_reps)):
+                base_key = 'argument-executed-as-commands'
+                what = 'one over-long command line was answered as several commands: %s; replies %r, expected %r' % (
+                    'its argument text was executed: callback %r' % (inarg[0],) if inarg else 'the line was cut', got_reps, want_reps)
+            elif inbody:
                 base_key, what = 'content-executed-as-commands', 'a line of a message body was executed as a command: callback %r' % (inbody[0],)
             elif len(got_reps) > len(want_reps):
                 base_key, what = 'content-executed-as-commands', 'the server sent %d replies where the stream holds %d commands: body lines were answered as commands (replies %r, expected %r)' % (len(got_reps), len(want_reps), got_reps, want_reps)
@@ -776,6 +802,13 @@ def reader_random(ctx, count):
     run_reader(ctx, jobs, 'random')
 
 
+def recv_line_4096(k, d, first, pre):
+    """a first line of `first` bytes and a second one that ends exactly at byte 4096*k+d; `pre` bytes already buffered"""
+    n = 4096 * k + d
+    s = b'N' * first + b'\r\n' + b'x' * (n - first - 4) + b'\r\n'
+    return s, s[:pre], cap([s[pre:]] if s[pre:] else [])
+
+
 def run_recv_line(ctx, count):
     rng = ctx.rng
     ins = []
@@ -783,18 +816,29 @@ def run_recv_line(ctx, count):
         s = b''.join(bytes(rng.choice(b'ab \r\r\n\nNOP') for _ in range(rng.randrange(0, 12))) for _ in range(rng.randrange(1, 4)))
         c = rng.randrange(0, len(s) + 1)
         ins.append((s, s[:c], cap(rng.choice([seg_whole, seg_bytes, lambda x: seg_random(x, rng)])(s[c:]))))
+    gens = {}
+    for k in (1, 2):             # lines that end exactly at a 4096-byte piece boundary, nothing behind them
+        for d in (-1, 0, 1):
+            for first in (10, 4000, 4094):
+                for pre in (0, 5):
+                    s, buf, chunks = recv_line_4096(k, d, first, pre)
+                    gens[len(ins)] = dict(k=k, d=d, first=first, pre=pre)
+                    ins.append((s, buf, chunks))
     outs = ctx.model.batch('c09_recv_line', [[buf, list(chunks)] for _, buf, chunks in ins])
-    for (s, buf, chunks), o in zip(ins, outs):
+    for idx, ((s, buf, chunks), o) in enumerate(zip(ins, outs)):
         io_out = impl_recv_line(buf, chunks)
         ctx.evaluations += 1
+        small = dict(recv_line=True, gen=gens[idx]) if idx in gens else dict(recv_line=True, stream=s, recv_buffer=buf, chunks=list(chunks))
         if io_out != canon_prim(o):
-            ctx.mismatch('IO.recv_line', dict(recv_buffer=buf, chunks=list(chunks)), io_out, canon_prim(o))
+            ctx.mismatch('IO.recv_line', small, tuple(short(x, 80) if isinstance(x, bytes) else x for x in io_out),
+                         tuple(short(x, 80) if isinstance(x, bytes) else x for x in canon_prim(o)))
         i = s.find(b'\n')
         want = (1,) if i < 0 else (0, s[:i - 1] if s[:i].endswith(b'\r') else s[:i], s[i + 1:])
         got = io_out if io_out[0] == 1 else (0, io_out[1], io_out[2] + b''.join(chunks[len(chunks) - io_out[3]:] if io_out[3] else []))
         if got != want:
-            ctx.fail('c09:recv-line-wrong-split', dict(recv_line=True, stream=s, recv_buffer=buf, chunks=list(chunks)),
-                     'IO.recv_line gave %r, the stream reads %r' % (got, want))
+            ctx.fail('c09:recv-line-wrong-split', small,
+                     'IO.recv_line gave %r, the stream reads %r' % (tuple(short(x, 80) if isinstance(x, bytes) else x for x in got),
+                                                                    tuple(short(x, 80) if isinstance(x, bytes) else x for x in want)))
 
 
 # ---------------------------------------------------------------- fixed scenarios
@@ -913,6 +957,70 @@ def longline_cases(quick):
     return C
 
 
+# ---------------------------------------------------------------- pipelined groups of exactly k*4096 bytes
+def gen_padded(k, d, kind):
+    """A session whose whole pipelined byte stream is exactly k*4096+d bytes (padded with NOOP lines / RCPT lines and the
+    length of the EHLO name): delivered in one burst every recv(4096) returns a FULL buffer and nothing follows the last."""
+    T = 4096 * k + d
+    if kind == 'noops':
+        tail = b'MAIL FROM:<after0@x.example>\r\nRSET\r\nQUIT\r\n'
+        unit, msgs = b'NOOP\r\n', []
+        mid = lambda n: unit * n
+    else:
+        second = b'to the list\r\n'
+        tail = b'DATA\r\n' + second + b'.\r\nQUIT\r\n'
+        msgs = [dict(k=0, content=second, wire_len=len(second) + 3)]
+        mid = lambda n: b'MAIL FROM:<s0@x.example>\r\n' + b''.join(b'RCPT TO:<r0-%03d@x.example>\r\n' % j for j in range(n))
+    fixed = len(b'EHLO .example\r\n') + len(tail)
+    n = 0
+    while fixed + len(mid(n + 1)) + 1 <= T:
+        n += 1
+    m = T - fixed - len(mid(n))
+    stream = b'EHLO ' + b'a' * m + b'.example\r\n' + mid(n) + tail
+    assert len(stream) == T and m >= 1, (len(stream), T, m)
+    segs = [('lines',), ('whole',), ('cuts', [T // 2]), ('cuts', [T - 1])] + ([('fixed', 1000), ('cuts', [4096])] if k == 1 else [])
+    segs = [x for x in segs if x[0] != 'cuts' or 0 < x[1][0] < T]
+    return dict(stream=stream, mx=None, vb=KEEP, envs=[], profile='clean', end='quit', roles=[], segs=segs, msgs=msgs,
+                gen=dict(kind='padded', k=k, d=d, pad=kind))
+
+
+def padded_cases():
+    return [gen_padded(k, d, kind) for k in (1, 2, 3) for d in (-1, 0, 1) for kind in ('noops', 'rcpts') if k < 3 or (d == 0 and kind == 'noops')]
+
+
+# ---------------------------------------------------------------- over-long command lines
+def gen_longcmd(h, word, segs):
+    """EHLO, then ONE command line: h bytes (`word`, a blank, filler) followed by a tail that spells a command
+    (`MAIL FROM:<inarg0@x.example>`) - argument text, never a command - then MAIL/RSET/QUIT.
+    `cut` = offset directly in front of the tail (segmentation "the h bytes, 1 byte, the rest")."""
+    tail = b'MAIL FROM:<inarg0@x.example>'
+    head = b'EHLO a.example\r\n'
+    fill = h - len(word) - 1
+    line = word + b' ' + b'x' * fill + tail
+    stream = head + line + b'\r\n' + b'MAIL FROM:<after0@x.example>\r\nRSET\r\nQUIT\r\n'
+    cut = len(head) + len(line) - len(tail)
+    names = dict(whole=('whole',), lines=('lines',), fixed=('fixed', 4096), cut=('cuts', [cut, cut + 1]))
+    return dict(stream=stream, mx=None, vb=KEEP, envs=[], profile='clean', end='quit', roles=[], msgs=[],
+                segs=[names[x] for x in segs], gen=dict(kind='longcmd', h=h, word=word.decode('ascii'), segs=list(segs)))
+
+
+MIB = 1 << 20
+
+
+def longcmd_cases(quick):
+    """(case, number of segmentations also given to the model).  The library rescans the growing buffer after every
+    read (line_pattern from offset 0): about 9 s per MiB-long line and run, hence the small numbers."""
+    C = [(gen_longcmd(65536 + d, w, ('lines', 'whole', 'cut')), 2) for d in (0, 1) for w in (b'NOOP', b'XYZZY')]
+    if quick:
+        C.append((gen_longcmd(MIB + 1, b'NOOP', ('cut',)), 0))
+        return C
+    for d in (-1, 0, 1):
+        C.append((gen_longcmd(MIB + d, b'NOOP', ('cut',)), 0))
+    C.append((gen_longcmd(MIB + 1, b'NOOP', ('whole', 'cut')), 0))
+    C.append((gen_longcmd(2 * MIB, b'NOOP', ('whole',)), 0))
+    return C
+
+
 # ---------------------------------------------------------------- STARTTLS that leaves the session in clear text
 def gen_starttls(rng, variant):
     """EHLO .. STARTTLS .. and a whole transaction + QUIT pipelined behind it.  Only a STARTTLS answered 220 may
@@ -972,6 +1080,10 @@ def run(ctx):
         'Long lines: a body with ONE line of L-d bytes (L in 4096, 8192, 65536; d in -2..3) ending in "." or ".text", pipelined RSET/second message/QUIT '
         'behind it, SIZE none/3000, read line by line (reference), in one burst, in 1000/4095/4096/4097-byte reads, bytewise (L <= 8192) and cut in two at every '
         'offset within 3 bytes of each 4096*k mark (counted from the line start and from the stream start) and directly before/after the dots. '
+        'Pipelined groups padded to exactly k*4096+d bytes (k 1..3, d -1..1; NOOPs or a mailing-list run of RCPTs, EHLO name as filler) in one burst, 1000-byte reads, '
+        'cuts; after the last scripted byte a further recv() while io.recv_buffer holds a complete line is flagged (a waiting client would deadlock). '
+        'Over-long command lines (64 KiB, 64 KiB+1 as NOOP/unknown word; 1 MiB+1 in quick, 1 MiB-1/0/+1 and 2 MiB in thorough) whose tail spells MAIL FROM:<inarg..>, '
+        'cut directly in front of that tail ("L bytes, 1 byte, rest"), one burst, line by line. '
         'STARTTLS without handshake: refused by a handlers.STARTTLS hook (454/501/550/450/502, 421/221, raising), with an argument, before EHLO, not offered, '
         'after HELO, and accepted-with-failing-handshake, each with a transaction + MAIL/RSET + QUIT pipelined behind it, extra cuts right after / inside the '
         'bytes that follow the STARTTLS line. '
@@ -995,6 +1107,13 @@ def run(ctx):
     ll = longline_cases(quick)
     for case in ll:
         check_stream(ctx, case, 'long-line', model_all=(2 if len(case['stream']) > 20000 else 4))
+    # 2d. pipelined groups of exactly k*4096 (+-1) bytes; over-long command lines whose tail spells a command
+    pc = padded_cases()
+    for case in pc:
+        check_stream(ctx, case, 'padded-to-4096k', model_all=2)
+    lc = longcmd_cases(quick)
+    for case, nmodel in lc:
+        check_stream(ctx, case, 'long-command-line', model_all=nmodel)
     # 2c. STARTTLS that does not lead to a handshake: refused by the hook, argument, before EHLO, not offered
     nst = 0
     for rnd in range(3 if quick else 40):
@@ -1018,6 +1137,10 @@ def run(ctx):
         '{".",CR,LF,"a"} to length %d (%d bodies) alone and followed by ".CRLF Q CRLF", x limits {none,1,3,size-1,size,size+1}, whole / fully buffered / '
         'bytewise / every single cut' % (len(short_sessions()), 4 if quick else 6, nbody))
     ctx.dist['long-line-streams'] = len(ll)
+    ctx.dist['padded-streams'] = len(pc)
+    ctx.dist['long-command-line-streams'] = len(lc)
+    ctx.note('IO.recv_line rescans the whole growing buffer after every read (line_pattern from offset 0): an LF-free command line of 1 MiB costs ~9 s of CPU '
+             '(not judged; bounded only by command_timeout)')
     ctx.dist['starttls-streams'] = nst
     ctx.note('a STARTTLS answered 220 discards io.recv_buffer before the handshake (RFC 3207; property C08): the one intended dependence on segmentation; '
              'here its handshake always fails and the session ends, every other STARTTLS arm must leave the stream alone')
@@ -1043,14 +1166,29 @@ def replay(ctx, case):
                 print('  model (D13 repaired): %r' % (canon_prim(ctx.model.call('c09_recv', [[cc['max_size']] if cc['max_size'] is not None else [], buf, chunks])),))
         return 0
     if c.get('recv_line'):
-        buf, chunks = un(c['recv_buffer']), [un(x) for x in c['chunks']]
-        print('IO.recv_line recv_buffer=%r chunks=%r -> %r' % (buf, chunks, impl_recv_line(buf, chunks)))
+        if c.get('gen'):
+            g = c['gen']
+            s, buf, chunks = recv_line_4096(g['k'], g['d'], g['first'], g['pre'])
+            print('stream: a line of %d bytes, then a line ending exactly at byte %d*4096%+d; %d bytes already buffered' % (g['first'], g['k'], g['d'], g['pre']))
+        else:
+            buf, chunks = un(c['recv_buffer']), [un(x) for x in c['chunks']]
+        out = impl_recv_line(buf, chunks)
+        print('IO.recv_line recv_buffer=%r, recv() results of %r bytes -> %r' % (short(buf, 60), [len(x) for x in chunks],
+                                                                                tuple(short(x, 60) if isinstance(x, bytes) else x for x in out)))
         return 0
     envs = [dict(v1=e[0], v2=e[1], v3=e[2], q=e[3], qkind='queue', vt=(e[4] if len(e) > 4 else KEEP), tls=0) for e in c.get('envs', [])]
     if c.get('gen'):
         g = c['gen']
-        stream = gen_longline(g['L'], g['delta'], g['cont'], g['max_size'])['stream']
-        print('generated stream: one body line of %d bytes of "X" (L=%d, delta=%d) ending in %s, then RSET / second message / QUIT' % (
+        if g['kind'] == 'padded':
+            stream = gen_padded(g['k'], g['d'], g['pad'])['stream']
+            print('generated stream: a pipelined session of exactly %d*4096%+d bytes (%s as padding)' % (g['k'], g['d'], g['pad']))
+        elif g['kind'] == 'longcmd':
+            stream = gen_longcmd(g['h'], g['word'].encode('ascii'), g['segs'])['stream']
+            print('generated stream: EHLO, one %s line of %d bytes followed (same line) by the text "MAIL FROM:<inarg0@x.example>", then MAIL/RSET/QUIT' % (g['word'], g['h']))
+        else:
+            stream = gen_longline(g['L'], g['delta'], g['cont'], g['max_size'])['stream']
+        if g['kind'] == 'longline':
+            print('generated stream: one body line of %d bytes of "X" (L=%d, delta=%d) ending in %s, then RSET / second message / QUIT' % (
             g['L'] - g['delta'], g['L'], g['delta'], '".CRLF"' if g['cont'] == 'dot' else '".text...CRLF"'))
     else:
         stream = un(c['stream'])
@@ -1067,7 +1205,9 @@ def replay(ctx, case):
         print('  server wrote : %r' % short(r['sent'], 900))
         print('  callbacks    : %r' % ([tuple(short(x, 80) if isinstance(x, bytes) else x for x in e) for e in r['trace']],))
         print('  session ended: %s' % FIN_NAMES[r['fin']])
-        if ctx.model:
+        if r.get('held'):
+            print('  READ PAST THE END OF THE SCRIPT while io.recv_buffer held %d bytes / %d complete lines: %r...' % r['held'])
+        if ctx.model and len(stream) < 300000:
             m = canon_model(ctx.model.call('c09_run', model_inputs(kc, chunks)))
             print('  model        : replies %r, %s' % ([list(o[0]) for o in m['outs']], FIN_NAMES[m['fin']]))
     return 0
